@@ -1180,6 +1180,28 @@ class Counter:
         return self.total
 
 
+@dataclasses.dataclass
+class Tally:
+    slots: list
+    used: int = 0
+
+    @classmethod
+    def of_size(cls, size):
+        return cls(slots=[None] * size)
+
+    def put(self, item):
+        self.slots[self.used] = item
+        self.used += 1
+
+
+def record_object_factory(items):
+    tally = Tally.of_size(len(items))
+    for item in items:
+        tally.put(item * 2)
+    assert tally.used == len(items)
+    return tally.slots
+
+
 def record_object_with_results(items):
     counter = Counter(seen=[])
     sums = [counter.push(i) for i in items]
@@ -1369,6 +1391,7 @@ CASES = {
     'conditional_assignment_one_branch': [([1, 2], True), ([1, 2], False)],
     'search_loop_two_tests': [([[None, 1, 2], [5]],), ([[None, 1]],), ([],)],
     'attribute_loop_two_statements': [(HOLDER_A,), (HOLDER_B,), (HOLDER_C,)],
+    'record_object_factory': [([1, 2],), ([],)],
     'record_object_with_results': [([1, 2, 3],), ([],)],
     'enumerated_dict_iterated': [([0, 3, None, 1],), ([],)],
     'partial_positional': [([1, 2],), ([],)],
